@@ -26,7 +26,7 @@ def abstract_document(r, xml=False):
         return [r.randrange(nns), r.choice(pool)]
 
     def value():
-        k = r.choice(["str", "int", "float", "bool", "dt", "uri", "qn", "lang", "typed_int", "foreign_lit", "typed_str", "typed_bool", "typed_double"])
+        k = r.choice(["str", "int", "float", "bool", "dt", "uri", "qn", "lang", "typed_int", "foreign_lit", "typed_str", "typed_bool", "typed_double", "app_typed"])
         if k == "str":
             return ["str", r.choice(["a", "hello world", "", "é中", "x<y&z", 'q"t', "line\nbreak", "5", "true", "  lead", "trail  ", " "])]
         if k == "int":
@@ -52,6 +52,10 @@ def abstract_document(r, xml=False):
             return ["typed", r.choice(["true", "false", "1", "0"]), "boolean", r.random() < 0.5]
         if k == "typed_double":
             return ["typed", r.choice(["1.5", "2", "1e3"]), "double", r.random() < 0.5]
+        if k == "app_typed":
+            # a datatype of the application's own, named through one of the document's namespaces: what the name means depends on the
+            # prefixes in scope where it is written (few names, so that texts keep re-using a name under other bindings)
+            return ["apptyped", r.choice(["21.5", "19", "", "a b"]), [r.randrange(nns), r.choice(["celsius", "unit"])]]
         return ["typed", r.choice(["10", "1.50", "2002"]), r.choice(["integer", "decimal", "gYear", "short", "float"]), False]
 
     def records(nmax):
@@ -194,6 +198,9 @@ class JsonWriter:
                 self.features.add("lang_with_type")
                 return {"$": v[1], "type": "prov:InternationalizedString", "lang": v[2]}
             return {"$": v[1], "lang": v[2]}
+        if k == "apptyped":
+            self.features.add("application_datatype")
+            return {"$": v[1], "type": self.q(v[2], m)}
         if k == "typed":
             raw = v[1]
             if v[3] and v[2] in ("int", "long"):
@@ -334,6 +341,9 @@ class XmlWriter:
                 self.features.add("lang_with_type")
         elif k == "typed":
             text, attrs = v[1], ' xsi:type="xsd:%s"' % v[2]
+        elif k == "apptyped":
+            self.features.add("application_datatype")
+            text, attrs = v[1], ' xsi:type="%s"' % self.q(v[2], m)
         if text == "" and r.random() < 0.5:
             self.features.add("empty_element")
             return "%s<%s%s%s/>\n" % (indent, tag, extra_decl, attrs)
